@@ -509,6 +509,8 @@ func (r *rwRT) ruleOptEta() {
 				if len(cc.Args) == 2 {
 					a0, a1 := argLabel(cc.Args[0]), argLabel(cc.Args[1])
 					switch {
+					case a0 == a1: // a type compared with itself
+						ans = true
 					case strings.HasPrefix(a0, "results:") && strings.HasPrefix(a1, "results:") && sc.resSame != "":
 						ans = sc.resSame == "true"
 					case strings.HasPrefix(a0, "params:") && strings.HasPrefix(a1, "params:") && sc.parSame != "":
@@ -516,6 +518,19 @@ func (r *rwRT) ruleOptEta() {
 					}
 				}
 				return []Answer{{Ret: []AV{mkBool(ans)}, NoEvent: true}}
+			case "Underlying":
+				// the types in play are signatures: their own underlying types
+				if len(cc.Args) == 1 {
+					if sy, ok := unwrap(cc.Args[0]).(Sym); ok && (strings.HasPrefix(sy.Name, "type:") || strings.HasPrefix(sy.Name, "sig:")) {
+						return []Answer{{Ret: []AV{Dyn{T: tptr("Signature"), V: sy}}, NoEvent: true}}
+					}
+				}
+			case "Variadic":
+				if len(cc.Args) == 1 {
+					if sy, ok := unwrap(cc.Args[0]).(Sym); ok && (strings.HasPrefix(sy.Name, "type:") || strings.HasPrefix(sy.Name, "sig:")) {
+						return []Answer{{Ret: []AV{mkBool(sc.variadic)}, NoEvent: true}}
+					}
+				}
 			case "Results", "Params":
 				if len(cc.Args) == 1 {
 					if sy, ok := unwrap(cc.Args[0]).(Sym); ok && (strings.HasPrefix(sy.Name, "type:") || strings.HasPrefix(sy.Name, "sig:")) {
